@@ -203,8 +203,8 @@ VARIANTS = [
     V("twin: interpolation writes into a copying cast of its operand", ("C18",), "", "aggregate_flox.py", '    if out is None:\n        out = np.empty_like(a, dtype=dtype)\n    with np.errstate(invalid="ignore"):\n        diff_b_a = np.subtract(b, a)\n', '    with np.errstate(invalid="ignore"):\n        diff_b_a = np.subtract(b, a)\n    if out is None:\n        out = diff_b_a.astype(dtype, copy=True)\n', expect="silent"),
     V("grouper transposed with an inline inverse permutation", ("C07", "C08"), "R-PAIRS[transpose]", "xarray.py", '        order = [dims.index(d) for d in core_dims[0] if d in dims]\n        array = array.transpose(*order)', '        target = [d for d in core_dims[0] if d in dims]\n        array = array.transpose(*(target.index(d) for d in dims))', must_mention="inverse"),
     V("twin: forward permutation written inline", ("C07", "C08"), "", "xarray.py", '        order = [dims.index(d) for d in core_dims[0] if d in dims]\n        array = array.transpose(*order)', '        array = array.transpose(*[dims.index(d) for d in core_dims[0] if d in dims])', expect="silent"),
-    V("all-missing arm allocates without the new dimensions", ("C18", "C11"), "R-ARITY", "core.py", '            result = np.full(shape=new_dims_shape + final_array_shape, fill_value=fv)', '            result = np.full(shape=final_array_shape, fill_value=fv)', must_mention="q axis"),
-    V("twin: all-missing arm builds its shape in a local", ("C18", "C11"), "", "core.py", '            result = np.full(shape=new_dims_shape + final_array_shape, fill_value=fv)', '            result = np.full(shape=(*new_dims_shape, *final_array_shape), fill_value=fv)', expect="silent"),
+    V("all-missing arm allocates without the new dimensions", ("C18", "C11"), "R-ARITY", "core.py", '            result = np.full(shape=new_dims_shape + final_array_shape, fill_value=fv, dtype=dt)', '            result = np.full(shape=final_array_shape, fill_value=fv, dtype=dt)', must_mention="q axis"),
+    V("twin: all-missing arm builds its shape in a local", ("C18", "C11"), "", "core.py", '            result = np.full(shape=new_dims_shape + final_array_shape, fill_value=fv, dtype=dt)', '            result = np.full(shape=(*new_dims_shape, *final_array_shape), fill_value=fv, dtype=dt)', expect="silent"),
     V("singleton reduced axes addressed by absolute position on every intermediate", ("C18", "C11"), "R-ARITY", "core.py", '        squeeze_ax = tuple(ax for ax in range(v.ndim - nax, v.ndim - 1) if v.shape[ax] == 1)', '        squeeze_ax = tuple(ax for ax in sorted(axis)[:-1] if v.shape[ax] == 1)', must_mention="counter"),
     V("groups without a valid member no longer masked in the quantile kernel", ("C18", "C01"), "R-NOVALID", "aggregate_flox.py", '    novalid = actual_sizes < 0\n    if np.any(novalid):\n        result[..., novalid] = np.nan\n', '', must_mention="neighbour"),
     V("groups without a valid member masked only when NaN is not skipped", ("C18", "C01"), "R-NOVALID", "aggregate_flox.py", '    novalid = actual_sizes < 0\n    if np.any(novalid):\n', '    novalid = actual_sizes < 0\n    if not skipna and np.any(novalid):\n', must_mention="neighbour"),
@@ -432,7 +432,7 @@ VARIANTS = [
     V("duplicate-sentinel mask applied to values only", ("C16",), "R-COINDEX", "core.py", '            groups_ = groups_[..., ~mask]', '            groups_ = groups_[groups_ != -1]', must_mention="groupby_reduce"),
     V("median gets a decomposition", ("C18",), "R-BLOCKONLY", "aggregations.py", '    name="median",\n    fill_value=dtypes.NA,\n    chunk=None,\n    combine=None,', '    name="median",\n    fill_value=dtypes.NA,\n    chunk="median",\n    combine="median",', must_mention="median"),
     V("blockonly refusal removed", ("C18",), "R-BLOCKONLY", "core.py", '        if agg.chunk[0] is None and method != "blockwise":\n            raise NotImplementedError(\n                f"Aggregation {agg.name!r} is only implemented for dask arrays when method=\'blockwise\'."\n                f"Received method={method!r}"\n            )\n', '', must_mention="groupby_reduce"),
-    V("chunk_reduce forgets nanquantile's new axis", ("C18",), "R-BLOCKONLY", "core.py", '            if reduction in ("quantile", "nanquantile"):', '            if reduction in ("quantile",):', must_mention="newdims"),
+    V("chunk_reduce forgets nanquantile's new axis", ("C18",), "R-BLOCKONLY", "core.py", '        if reduction in ("quantile", "nanquantile"):', '        if reduction in ("quantile",):', must_mention="newdims"),
     V("all-NaN detector without valid count", ("C20",), "R-COLLIDE", "aggregate_flox.py", '            allnangroups &= nvalid == 0\n', '', must_mention="_nan_grouped_op"),
     V("all-NaN detector counts filled members", ("C20",), "R-COLLIDE", "aggregate_flox.py", '            allnangroups &= nvalid == 0\n', '            allnangroups &= nvalid > 0\n', must_mention="_nan_grouped_op"),
     V("variance shift before the widening cast", ("C20", "C01"), "R-VARSHIFT", "aggregate_npg.py", '    array = array.astype(dtype, copy=False)\n    first = _get_aggregate(engine).aggregate(group_idx, array, func="nanfirst", axis=axis)\n    array = array - first[..., group_idx]', '    first = _get_aggregate(engine).aggregate(group_idx, array, func="nanfirst", axis=axis)\n    array = (array - first[..., group_idx]).astype(dtype, copy=False)', must_mention="_var_std_wrapper"),
